@@ -1029,9 +1029,12 @@ class Acceptor:
             mi.sched_allow = prev_allow
 
     def schedule_loop(self, mi, after_handled, src, allow_queue):
+        ab_before = set(mi.comp_aborted)
         self.completion_round(mi)
         guard = 0
-        just_handled = False
+        # the scheduling point follows a handled step whose completion event may still re-offer aborted completion
+        # steps (trace-driven) - unless the completion round just run here was itself aborted
+        just_handled = bool(after_handled) and not (mi.comp_aborted - ab_before)
         while True:
             guard += 1
             if guard > 10000:
